@@ -169,6 +169,13 @@ def load_known():
 
 def run_units(worker, units, procs=None, init=None, initargs=()):
     procs = procs or min(16, os.cpu_count() or 4)
+    try:
+        # build the native replay runner once, before forking: 16 workers racing on `cargo build` after a source change can see the binary vanish
+        import replay
+        replay.build('dev')
+        replay.build('release')
+    except BaseException as x:
+        sys.stderr.write('runner pre-build problem: %r\n' % (x,))
     if procs <= 1 or len(units) <= 1:
         if init:
             init(*initargs)
